@@ -31,17 +31,20 @@ def jobs(tier):
                 re.match(r"(resize|init)\..*rows1_columns1_freqs1_pa1_ma1_fa1_fz0[01]_new_rows(m1|1)_new_columns1_new_freqs(1|m1)$", j.name):
             j.name = "vnadata." + j.name
             j.canary = False
+            j.imported = True
             J.append(j)
     for j in C16.jobs("quick"):
         if re.match(r"(add_calibration|delete_calibration|query_calibration)\.alloc(1|8)$", j.name) or \
                 re.match(r"(delete_parameter|make_parameter)\.alloc3", j.name):
             j.name = "vnacal." + j.name
             j.canary = False
+            j.imported = True
             J.append(j)
     for j in C20.jobs("quick"):
         if re.match(r"add_counts\.(T8|UE14)_2x2_bad|solve_too_few\.(T8|UE14)_2x2", j.name):
             j.name = "vnacal_new." + j.name
             j.canary = False
+            j.imported = True
             J.append(j)
     return J
 
